@@ -33,6 +33,9 @@ KINDS = {
     "fits-F32": ("fits", "f4", 0),
     "npy-F64": ("npy", "f8", 0),
     "fits-F64": ("fits", "f8", 0),
+    # C14 variants: a pixel of exactly 0.0 is the minimum (z) / the data are negated and 0.0 is the maximum (n)
+    "fits-F32z": ("fits", "f4", 0),
+    "fits-F32n": ("fits", "f4", 0),
 }
 
 
@@ -54,6 +57,11 @@ def leaf(tid, kind):
     und[150:153, 10:13] = tid % 2 == 0  # a small block in the lower half for even tiles
     if ch == 0 and dt[0] == "f":
         a = (tid * 700.0 + base * 0.01 + 0.5).astype(dt)
+        if kind.endswith("z") or kind.endswith("n"):
+            if tid % 2 == 0:
+                a[200, 200 + tid % 40] = 0.0  # exactly zero: the extreme of this leaf
+            if kind.endswith("n"):
+                a = -a
         a[und] = np.nan
     elif ch == 0:
         top = 250 if dt == "u1" else 30000
@@ -127,7 +135,9 @@ def same_pixels(a, b):
         if not np.array_equal(na, nb):
             return False
         rtol = 2e-6 if a.dtype.itemsize == 4 else 1e-12
-        return bool(np.allclose(a[~na], b[~nb], rtol=rtol, atol=0))
+        # a mean of values of mixed sign can cancel: the rounding error scales with the inputs
+        scale = float(np.max(np.abs(b[~nb]))) if (~nb).any() else 0.0
+        return bool(np.allclose(a[~na], b[~nb], rtol=rtol, atol=rtol * scale))
     return np.array_equal(a, b)
 
 
@@ -192,7 +202,7 @@ def compare_trees(got, want, start, kind, bad, check_range, leaves):
             if g.shape != w.shape or g.dtype.kind != w.dtype.kind:
                 bad("parent-shape-or-type", "tile %r has shape %r dtype %s, expected %r %s" % (pos, g.shape, g.dtype, w.shape, w.dtype))
             else:
-                eq = (np.isclose(g, w, rtol=2e-6, atol=0) | ((g != g) & (w != w))) if g.dtype.kind == "f" else (g == w)
+                eq = (np.isclose(g, w, rtol=2e-6, atol=2e-6 * float(np.nanmax(np.abs(w)))) | ((g != g) & (w != w))) if g.dtype.kind == "f" else (g == w)
                 if eq.ndim == 3:
                     eq = eq.all(axis=2)
                 idx = np.argwhere(~eq)
